@@ -43,7 +43,9 @@ REAL = ["cdd (working tree) via cdd.__main__.main (the non-clobbering guard live
 STUBBED = ["durability of write-mode files (SimFile)", "OS errors", "process crash (SimCrash)", "the user (delete output)"]
 EMITS = ("class", "function", "argparse", "sqlalchemy", "sqlalchemy_table", "sqlalchemy_hybrid", "json_schema", "pydantic")
 KINDS = ("class", "function", "argparse", "json")
-TPLS = ("{name}Gen", "Auto{name}", "{name}_v2", "{name}")
+# a leading underscore in the template (or in an entry's own name, below) gives non-public looking names: the
+# statement still requires __all__ to list exactly the templated names
+TPLS = ("{name}Gen", "Auto{name}", "{name}_v2", "{name}", "_{name}")
 PREPENDS = ("PREPENDED = True\\n", "import os\\n", "from os import path\\n", "import json\\nPREPENDED = True\\n",
             # preludes that import OTHER names from the very modules the inferred imports come from
             "from typing import List\\n", "from sqlalchemy import MetaData\\n",
@@ -71,7 +73,7 @@ def probes():
 def entries(draw):
     kind = draw(st.sampled_from(("class", "class", "function", "argparse", "json", "mixed")))
     n = 1 if kind == "json" else draw(st.integers(2, 4)) if kind == "mixed" else draw(st.integers(1, 5))
-    pool = {"class": gen.CLASS_NAMES, "mixed": gen.CLASS_NAMES, "function": gen.FUNC_NAMES,
+    pool = {"class": gen.CLASS_NAMES + ("_Internal",), "mixed": gen.CLASS_NAMES, "function": gen.FUNC_NAMES + ("_helper",),
             "json": ("alpha", "config", "user_profile"),
             "argparse": ("set_cli_args", "set_cli_args_b", "set_cli_args_c", "set_cli_args_d", "set_cli_args_e")}[kind]
     names = draw(st.lists(st.sampled_from(pool), min_size=n, max_size=n, unique=True))
